@@ -347,6 +347,8 @@ func (e *Engine) loadCell(st *State, key string, addr *Term, t types.Type) *Valu
 		sn := e.structName(t)
 		if e.boxMode > 0 {
 			sn = "box." + sn
+		} else {
+			sn = e.nestPrefix(key) + sn
 		}
 		v := &Value{T: t, St: map[string]*Value{}}
 		for i := 0; i < sty.NumFields(); i++ {
@@ -388,6 +390,8 @@ func (e *Engine) storeCell(st *State, key string, addr *Term, t types.Type, v *V
 		sn := e.structName(t)
 		if e.boxMode > 0 {
 			sn = "box." + sn
+		} else {
+			sn = e.nestPrefix(key) + sn
 		}
 		if v.St == nil {
 			panic(unsupported{"store of non-struct into struct cell"})
@@ -544,7 +548,7 @@ func (fx *fctx) fieldLval(st *State, recv ast.Expr, sel *types.Selection, n ast.
 				sty = structOf(cur)
 			}
 			f := sty.Field(i)
-			key = e.structName(cur) + "." + f.Name()
+			key = e.nestPrefix(key) + e.structName(cur) + "." + f.Name()
 			cur = f.Type()
 		}
 		return &lval{key: key, addr: addr, t: cur, raw: rawRecv, rawC: rawRecvC}
@@ -557,7 +561,7 @@ func (fx *fctx) fieldLval(st *State, recv ast.Expr, sel *types.Selection, n ast.
 		for _, i := range idxs {
 			sty := structOf(cur)
 			f := sty.Field(i)
-			key = e.structName(cur) + "." + f.Name()
+			key = e.nestPrefix(key) + e.structName(cur) + "." + f.Name()
 			cur = f.Type()
 		}
 		return &lval{key: key, addr: addr, t: cur, raw: base.raw, rawC: base.rawC}
